@@ -221,6 +221,17 @@ pub struct Known {
     pub witness: Option<String>,
 }
 
+/// known findings of the running property (set once by main before the workload starts)
+pub static KNOWN: std::sync::OnceLock<Vec<Known>> = std::sync::OnceLock::new();
+
+/// features named by `has:` signatures of still-open known findings of this property
+pub fn known_has_features() -> Vec<String> {
+    KNOWN
+        .get()
+        .map(|v| v.iter().filter(|k| k.status == "known").filter_map(|k| k.signature.split_once("/has:").map(|x| x.1.to_string())).collect())
+        .unwrap_or_default()
+}
+
 pub fn load_known(verif_dir: &Path) -> Vec<Known> {
     let p = verif_dir.join("known_findings.json");
     let Ok(s) = std::fs::read_to_string(&p) else { return vec![] };
@@ -245,6 +256,15 @@ pub fn load_known(verif_dir: &Path) -> Vec<Known> {
 pub fn signature_matches(listed: &str, observed: &str) -> bool {
     if listed == observed {
         return true;
+    }
+    // feature-set signatures "<PROP>/<variant>/<f1+f2+...>": a listed "<PROP>/has:<feature>"
+    // matches when the (1-minimal) set of features needed to reproduce contains <feature>
+    if let Some((prop, feat)) = listed.split_once("/has:") {
+        if let Some(rest) = observed.strip_prefix(prop) {
+            let feats = rest.rsplit('/').next().unwrap_or("");
+            return feats.split('+').any(|f| f == feat);
+        }
+        return false;
     }
     let l: Vec<&str> = listed.split('|').collect();
     let o: Vec<&str> = observed.split('|').collect();
